@@ -357,6 +357,7 @@ def dispatch (op : String) (j : Json) : Json :=
   | "c01.compile" => Core.Codec.compileOp j
   | "c04.compile" => Core.Codec.compilePrefsOp j
   | "c01.ref" => Core.Codec.refOp j
+  | "c01.safe" => Core.Codec.safeOp j
   | "c08.origin" => Ops.C08.origin j
   | "c08.link" => Ops.C08.link j
   | _ => Json.mkObj [("err", "bad-op")]
